@@ -690,6 +690,10 @@ func (ev *kindEval) member(pk *pkgT, ix *ast.IndexExpr, kindOf func(ast.Expr) (c
 					if !ok || len(vs.Names) != 1 || len(vs.Values) != 1 || pk.TypesInfo.ObjectOf(vs.Names[0]) != types.Object(v) {
 						continue
 					}
+					if call, ok := ast.Unparen(vs.Values[0]).(*ast.CallExpr); ok {
+						keys = ev.setBuilderKeys(pk, call)
+						continue
+					}
 					cl, ok := ast.Unparen(vs.Values[0]).(*ast.CompositeLit)
 					if !ok {
 						continue
@@ -736,6 +740,120 @@ func (ev *kindEval) member(pk *pkgT, ix *ast.IndexExpr, kindOf func(ast.Expr) (c
 		return triUnknown
 	}
 	return triOf(keys[k.ExactString()])
+}
+
+// setBuilderKeys: call is g(k1, k2, ...) with constant arguments and g a set builder -
+//
+//	func g(kk ...E) map[E]V { m := make(map[E]V[, n]); for _, k := range kk { m[k] = <v> }; return m }
+//
+// - so the keys of the result are exactly the arguments.
+func (ev *kindEval) setBuilderKeys(pk *pkgT, call *ast.CallExpr) map[string]bool {
+	g := Callee(pk.TypesInfo, call)
+	gd := ev.c.P.Decl(g)
+	if gd == nil || call.Ellipsis != token.NoPos {
+		return nil
+	}
+	gpk := ev.c.P.PkgOfDecl(gd)
+	info := gpk.TypesInfo
+	sig := g.Type().(*types.Signature)
+	if !sig.Variadic() || sig.Params().Len() != 1 || sig.Results().Len() != 1 {
+		return nil
+	}
+	body := gd.Body.List
+	// an optional `if len(kk) == 0 { return nil }` in front: the nil map has no keys either
+	if len(body) == 4 {
+		ifs, ok := body[0].(*ast.IfStmt)
+		if !ok || ifs.Init != nil || ifs.Else != nil || len(ifs.Body.List) != 1 {
+			return nil
+		}
+		be, ok := ast.Unparen(ifs.Cond).(*ast.BinaryExpr)
+		if !ok || be.Op != token.EQL {
+			return nil
+		}
+		if _, isLen := lengthExpr(info, be.X); !isLen {
+			return nil
+		}
+		if tv, ok := info.Types[be.Y]; !ok || tv.Value == nil || tv.Value.ExactString() != "0" {
+			return nil
+		}
+		r, ok := ifs.Body.List[0].(*ast.ReturnStmt)
+		if !ok || len(r.Results) != 1 {
+			return nil
+		}
+		if tv, ok := info.Types[r.Results[0]]; !ok || !tv.IsNil() {
+			return nil
+		}
+		body = body[1:]
+	}
+	if len(body) != 3 {
+		return nil
+	}
+	if _, isMap := sig.Results().At(0).Type().Underlying().(*types.Map); !isMap {
+		return nil
+	}
+	param := info.ObjectOf(gd.Type.Params.List[0].Names[0])
+	mk, ok := body[0].(*ast.AssignStmt)
+	if !ok || mk.Tok != token.DEFINE || len(mk.Lhs) != 1 || len(mk.Rhs) != 1 {
+		return nil
+	}
+	mid, ok := mk.Lhs[0].(*ast.Ident)
+	if !ok {
+		return nil
+	}
+	mobj := info.ObjectOf(mid)
+	switch v := ast.Unparen(mk.Rhs[0]).(type) {
+	case *ast.CallExpr:
+		if fid, ok := v.Fun.(*ast.Ident); !ok || fid.Name != "make" {
+			return nil
+		}
+	case *ast.CompositeLit:
+		if len(v.Elts) != 0 {
+			return nil
+		}
+	default:
+		return nil
+	}
+	rs, ok := body[1].(*ast.RangeStmt)
+	if !ok || rs.Value == nil || len(rs.Body.List) != 1 {
+		return nil
+	}
+	if x, ok := ast.Unparen(rs.X).(*ast.Ident); !ok || info.ObjectOf(x) != param {
+		return nil
+	}
+	vid, ok := rs.Value.(*ast.Ident)
+	if !ok {
+		return nil
+	}
+	st, ok := rs.Body.List[0].(*ast.AssignStmt)
+	if !ok || st.Tok != token.ASSIGN || len(st.Lhs) != 1 {
+		return nil
+	}
+	ix, ok := ast.Unparen(st.Lhs[0]).(*ast.IndexExpr)
+	if !ok {
+		return nil
+	}
+	if x, ok := ast.Unparen(ix.X).(*ast.Ident); !ok || info.ObjectOf(x) != mobj {
+		return nil
+	}
+	if x, ok := ast.Unparen(ix.Index).(*ast.Ident); !ok || info.ObjectOf(x) != info.ObjectOf(vid) {
+		return nil
+	}
+	ret, ok := body[2].(*ast.ReturnStmt)
+	if !ok || len(ret.Results) != 1 {
+		return nil
+	}
+	if x, ok := ast.Unparen(ret.Results[0]).(*ast.Ident); !ok || info.ObjectOf(x) != mobj {
+		return nil
+	}
+	keys := map[string]bool{}
+	for _, a := range call.Args {
+		tv, ok := pk.TypesInfo.Types[a]
+		if !ok || tv.Value == nil {
+			return nil
+		}
+		keys[tv.Value.ExactString()] = true
+	}
+	return keys
 }
 
 // ---------------------------------------------------------------- AT1
